@@ -27,7 +27,8 @@ COQ_FILES = ["Formats/Lines.v", "Formats/LinesProofs.v", "Formats/Apk.v", "Forma
 THEOREMS = ["apk_total", "gradle_total", "gemfile_total", "dpkg_total"]  # fallback when the Props file cannot be read
 # <name>_total theorem -> what the model parses (names not listed here are shown as they are)
 PARSER_NAMES = {"apk": "apk installed (lib/apk/db/installed)", "gradle": "gradle.lockfile", "gemfile": "Gemfile.lock",
-                "dpkg": "dpkg status (var/lib/dpkg/status, status.d)", "requirements": "requirements.txt"}
+                "dpkg": "dpkg status (var/lib/dpkg/status, status.d)", "requirements": "requirements.txt",
+                "gomod_bytes": "go.mod (byte-level sub-grammar model)"}
 
 
 def coq_files():
